@@ -16,6 +16,7 @@ def run(ctx):
     P.L4_strings(ctx, "C07.L4", core, G)
     P.L5_nonfinite(ctx, "C07.L5", core)
     P.L6_reserved(ctx, "C07.L6", core, G)
+    P.L7_builtins(ctx, "C07.L7", core)
     from rules import symprint
     symprint.L2_guards(ctx, "C07.L2", core, G, scope_fns=("ast_to_source", "formatter"))
     symprint.shape_rules(ctx, "C07.R7", core, G, scope_fns=("ast_to_source", "formatter"))
